@@ -13,8 +13,8 @@ git checkout -q -- src 2>/dev/null
 git checkout -q -- . ; git clean -fdq -e target -e deliver
 # copy demo files into place
 DEMO_CMD="bash $D/demo_cmd.txt"
-verdict() { if grep -qE "test result: FAILED|panicked at|error: test failed" $1; then echo "demo: FAILS"; else echo "demo: passes"; fi; }
-for f in $D/*.rs; do [ -f "$f" ] && { mkdir -p tests; cp $f tests/; }; done
+verdict() { if grep -qE "test result: FAILED|panicked at|error: test failed" $1; then echo "demo: FAILS"; elif grep -qE "^error" $1; then echo "demo: DID NOT RUN"; else echo "demo: passes"; fi; }
+mkdir -p tests; for f in $D/*.rs $D/tests/*.rs; do [ -f "$f" ] && cp $f tests/; done
 echo "== demo on original: $DEMO_CMD"
 ( eval "$DEMO_CMD" ) > $OUT/demo_orig.log 2>&1; echo "exit=$? $(verdict $OUT/demo_orig.log)" | tee -a $OUT/demo_orig.log
 git apply $D/patch.diff || { echo "PATCH DOES NOT APPLY"; exit 3; }
